@@ -11,44 +11,76 @@ def range_impl(ty, which, header):
 
 
 # ghost text (R1) -------------------------------------------------------------------------------------
-G_AFTER_NEW = '''let mut refs = XRefTable::new(highest_id as ObjNr);
-        let ghost file = this.bytes();
-        let ghost first = pos as int;
-        let ghost secs0 = xref_sections@;
-        proof { assert(gs(xref_sections@).take(0) =~= Seq::<int>::empty()); }'''
+# The ghost code is keyed on SHAPES, not on the names of locals: the names of the lexer, of the pair bound by
+# `let (secs, trailer) = t!(read_xref_and_trailer_at(..))`, of the loop variable of `while let Some(v) = prev_trailer`,
+# of the expression pushed to `seen`, and of the variable iterated by `for s in secs` are captured and re-used verbatim.
+# Fixed names (a rename makes the unit UNDECIDED = anchor lost, never an alarm): prev_trailer, seen, refs, highest_id.
 
-G_FOR = '''for __k in 0..xref_sections.len() { let section = xref_sections[__k];
-            proof { lemma_gs_take_push(xref_sections@, __k as int); }'''
+# after `let mut <lexer> = Lexer::with_offset(<args>);` : the position the section is read at IS the lexer's file offset
+RX_LEXER = r'(let\s+mut\s+(\w+)\s*=\s*Lexer::with_offset\([^;]*\);)'
+G_LEXER = r'''\1
+        let ghost gpos: int = \2.off as int;'''
 
-G_BEFORE_PREV = '''let ghost mut visited: Seq<int> = seq![pos as int];
+# after `let (<secs>, <trailer>) = t!(read_xref_and_trailer_at(<args>));`
+RX_READ = r'let\s*\(\s*(mut\s+)?(\w+)\s*,\s*(mut\s+)?(\w+)\s*\)\s*=\s*(t!\(read_xref_and_trailer_at\([^;]*\)\));'
+G_READ = r'''let (\1\2, \3\4) = \5;
+        let ghost g_tr = \4;'''
+
+# R10: destructuring assignment `(a, b) = E;` (not accepted by Verus) -> `let (__da_a, __da_b) = E; a = __da_a; b = __da_b;`
+RX_DASSIGN = r'(?<=[;{}])(\s*)\(\s*(\w+)\s*,\s*(\w+)\s*\)\s*=(?!=)\s*([^;]*);'
+G_DASSIGN = r'\1let (__da_\2, __da_\3) = \4; \2 = __da_\2; \3 = __da_\3;'
+
+# R6: `for <s> in <secs> {` -> index loop over the moved vector
+RX_FOR = r'for\s+(\w+)\s+in\s+(\w+)\s*\{'
+G_FOR = r'''let __secs = \2;
+        proof { assert(gs(__secs@).take(0) =~= Seq::<int>::empty()); }
+        for __k in 0..__secs.len() { let \1 = __secs[__k];
+            proof { lemma_gs_take_push(__secs@, __k as int); }'''
+
+# before `while let Some(<v>) = prev_trailer`: the state after the newest section has been merged.
+# `rel`: which representation the loop variable carries -- true: the raw /Prev value (relative to the header, as in the
+# pinned source), false: the absolute position (header position already added). Decided ONCE, from the value computed
+# for the newest trailer; the invariant then demands the same representation after every later hop.
+RX_WHILE = r'while\s+let\s+Some\((\w+)\)\s*=\s*prev_trailer(?!\w)'
+G_WHILE = r'''let ghost file = this.bytes();
+        let ghost first = gpos;
+        let ghost tr0 = g_tr;
+        let ghost rel: bool = prev_trailer == link_opt(prev_link(tr0));
+        let ghost seen_delta: int = if rel { start_offset as int } else { 0 };
+        let ghost mut visited: Seq<int> = seq![first];
         proof {
+            let secs0 = __secs@;
             assert(gs(secs0).take(secs0.len() as int) =~= gs(secs0));
             assert(Seq::<int>::empty() + gs(secs0) =~= gs(secs0));
-            assert(gs(secs0) == sections_at(file, pos as int));
-            lemma_concat_one(file, pos as int);
-            lemma_chain_one(file, start_offset as int, pos as int);
+            assert(gs(secs0) == sections_at(file, first));
+            lemma_concat_one(file, first);
+            lemma_chain_one(file, start_offset as int, first);
         }
-        let mut prev_trailer = {'''
+        while let Some(\1) = prev_trailer'''
 
-G_SEEN = '''let ghost tr0 = trailer;
-        let mut seen: Vec<usize> = vec![];'''
+G_SEEN = '''let mut seen: Vec<usize> = vec![];'''
 
-G_PUSH = '''let ghost seen_old = seen@;
-            seen.push(prev_xref_offset);'''
+RX_PUSH = r'seen\.push\(([^;]*)\);'
+G_PUSH = r'''let ghost seen_old = seen@;
+            let ghost pushed: usize = \1;
+            seen.push(\1);'''
 
+# before the assignment `prev_trailer = ...` at the end of the loop body (gpos / g_tr / __secs: those of this iteration)
+RX_NEXT = r'(?<![\w.])(?<!mut )prev_trailer\s*=(?!=)'
 G_LOOP_END = '''proof {
-                assert(seen@ =~= seen_old.push(prev_xref_offset));
-                assert(pos <= file.len());
+                assert(seen@ =~= seen_old.push(pushed));
+                assert(gpos <= file.len());
                 assert(seen@.no_duplicates());
                 lemma_nodup_bound(seen@, file.len() as int);
-                assert(gs(xref_sections@).take(xref_sections@.len() as int) =~= gs(xref_sections@));
-                lemma_concat_push(file, visited, pos as int);
-                lemma_chain_push(file, start_offset as int, first, visited, pos as int);
-                visited = visited.push(pos as int);
+                assert(gs(__secs@).take(__secs@.len() as int) =~= gs(__secs@));
+                lemma_concat_push(file, visited, gpos);
+                lemma_chain_push(file, start_offset as int, first, visited, gpos);
+                visited = visited.push(gpos);
             }
-            prev_trailer = {'''
+            prev_trailer ='''
 
-G_END = '''proof {
+RX_END = r'Ok\(\(refs,\s*(\w+)\)\)'
+G_END = r'''proof {
             assert(prev_offsets_distinct(visited)) by {
                 assert forall|i: int, j: int| 1 <= i < j < visited.len() implies visited[i] != visited[j] by {
                     assert(seen@[i - 1] != seen@[j - 1]);
@@ -57,7 +89,7 @@ G_END = '''proof {
             lemma_chain_done(file, start_offset as int, first, visited);
             assert(walk_result(file, start_offset as int, first, refs.merged@));
         }
-        Ok((refs, trailer))'''
+        Ok((refs, \1))'''
 
 G_HEADER = '''proof {
             let w = if 1024 <= this.bytes().len() { 1024int } else { this.bytes().len() as int };
@@ -73,13 +105,18 @@ G_HEADER = '''proof {
         '''
 
 WHILE_INV = [
-    ('inv_frame', 'file == this.bytes() && trailer == tr0 && first == start_offset + this.startxref().unwrap() && this.startxref() is Some && first < file.len()'),
+    ('inv_frame', 'file == this.bytes() && first == start_offset + this.startxref().unwrap() && this.startxref() is Some && first < file.len()'),
     ('inv_chain', 'is_chain_prefix(file, start_offset as int, first, visited)'),
     ('inv_newest', 'tr0 == trailer_at(file, first) && size_entry(tr0) == Some(highest_id) && refs.size@ == highest_id'),
     ('inv_merged_in_order', 'refs.merged@ == concat_sections(file, visited)'),
-    ('inv_next_is_prev', '!(prev_link(trailer_at(file, visited.last())) is Malformed) && prev_trailer == link_opt(prev_link(trailer_at(file, visited.last())))'),
+    # the loop variable is the /Prev of the trailer of the section merged last, in the representation fixed before the loop
+    ('inv_next_is_prev', 'next_is_prev(rel, start_offset, prev_link(trailer_at(file, visited.last())), prev_trailer)'),
+    # (the representation flag is only meaningful when the newest trailer has a /Prev at all)
+    ('inv_walk_started', 'visited.len() >= 1 && visited[0] == first && (visited.len() > 1 ==> prev_link(tr0) is At)'),
     ('inv_seen', 'seen@.no_duplicates() && seen@.len() <= file.len() + 1 && seen@.len() == visited.len() - 1'),
-    ('inv_seen_is_visited', 'forall|i: int| 0 <= i < seen@.len() ==> seen@[i] <= file.len() && visited[i + 1] == start_offset + #[trigger] seen@[i]'),
+    # `seen` holds what identifies the visited positions: position minus a constant (whatever the code pushes, as long as it is
+    # the same function of the position in every iteration: either representation of the loop variable)
+    ('inv_seen_is_visited', 'forall|i: int| 0 <= i < seen@.len() ==> seen@[i] <= file.len() && visited[i + 1] == seen_delta + #[trigger] seen@[i]'),
     ('inv_inside', 'forall|i: int| 0 <= i < visited.len() ==> 0 <= #[trigger] visited[i] <= file.len()'),
 ]
 
@@ -112,6 +149,9 @@ UNIT = {
 
   'read_xref_table_and_trailer': {'kind': 'fn', 'file': F, 'container': TRAIT, 'name': 'read_xref_table_and_trailer',
      'props': ['C02', 'C17', 'C01', 'C14'],
+     # the representation flag `rel` is a ghost constant fixed before the loop from the code that precedes it; the loop body
+     # must see that definition (and nothing else is gained: every modified variable is still described by the invariant only)
+     'attrs': ['#[verifier::loop_isolation(false)]', '#[verifier::allow_complex_invariants]'],
      'ensures': [
         # C02 "the document trailer is that of the newest section"; C17 "all offsets ... relative to the header"
         ('newest_trailer', OK + 'this.startxref() matches Some(x) && tr == trailer_at(this.bytes(), start_offset + x)'),
@@ -122,24 +162,26 @@ UNIT = {
         ('chain_merged_newest_first', OK + 'this.startxref() matches Some(x) && walk_result(this.bytes(), start_offset as int, start_offset + x, refs.merged@)'),
      ],
      'loops': {
-        1: {'invariant': [('inv_first_sections', 'refs.merged@ == gs(xref_sections@).take(__k as int) && refs.size@ == highest_id')]},
+        1: {'invariant': [('inv_first_sections', 'refs.merged@ == gs(__secs@).take(__k as int) && refs.size@ == highest_id')]},
         2: {'invariant': WHILE_INV,
             'ensures': [('walk_ends_without_prev', 'prev_trailer is None')],
             'decreases': 'file.len() + 1 - seen@.len()'},
-        3: {'invariant': [('inv_older_sections', 'refs.merged@ == concat_sections(file, visited) + gs(xref_sections@).take(__k as int) && refs.size@ == highest_id')]},
+        3: {'invariant': [('inv_older_sections', 'refs.merged@ == concat_sections(file, visited) + gs(__secs@).take(__k as int) && refs.size@ == highest_id')]},
      },
      'rewrites': [
         {'where': 'sig', 'rule': 'R2', 'find': 'fn read_xref_table_and_trailer(&self,', 'replace': 'fn read_xref_table_and_trailer<B: Backend>(this: &B,'},
         {'rule': 'R3', 'find': '.ok_or_else(|| PdfError::MissingEntry {field: "Size".into(), typ: "XRefTable"})?',
          'replace': '.ok_or(PdfError::MissingEntry {typ: "XRefTable"})?'},
-        {'rule': 'R1', 'find': 'let mut refs = XRefTable::new(highest_id as ObjNr);', 'replace': G_AFTER_NEW},
-        {'rule': 'R6', 'find': 'for section in xref_sections {', 'replace': G_FOR, 'count': 2},
-        {'rule': 'R1', 'find': 'let mut prev_trailer = {', 'replace': G_BEFORE_PREV},
-        {'rule': 'R1+R2', 'find': 'let mut seen = vec![];', 'replace': G_SEEN},   # R2: element type ascribed (inference across the injected invariant)
+        {'rule': 'R10', 'regex': RX_DASSIGN, 'replace': G_DASSIGN, 'count': '*'},
+        {'rule': 'R1', 'regex': RX_LEXER, 'replace': G_LEXER, 'count': 2},
+        {'rule': 'R1', 'regex': RX_READ, 'replace': G_READ, 'count': 2},
+        {'rule': 'R6', 'regex': RX_FOR, 'replace': G_FOR, 'count': 2},
+        {'rule': 'R1', 'regex': RX_WHILE, 'replace': G_WHILE},
+        {'rule': 'R2', 'find': 'let mut seen = vec![];', 'replace': G_SEEN},   # R2: element type ascribed (inference across the injected invariant)
         {'rule': 'R7', 'regex': r'seen\.contains\(&(.*?)\)', 'replace': r'hoist_contains(&seen, \1)'},
-        {'rule': 'R1', 'find': 'seen.push(prev_xref_offset);', 'replace': G_PUSH},
-        {'rule': 'R1', 'regex': r'(?<!mut )prev_trailer = \{', 'replace': G_LOOP_END},
-        {'rule': 'R1', 'find': 'Ok((refs, trailer))', 'replace': G_END},
+        {'rule': 'R1', 'regex': RX_PUSH, 'replace': G_PUSH},
+        {'rule': 'R1', 'regex': RX_NEXT, 'replace': G_LOOP_END},
+        {'rule': 'R1', 'regex': RX_END, 'replace': G_END},
         {'rule': 'R2', 'find': 'self.', 'replace': 'this.', 'count': 4},
      ]},
 
